@@ -122,8 +122,14 @@ class FakeNode:
                     elif v.get("method") == "log": self.logs.append(v)
         self.trailing = buf
 
-    def _write(self, obj):
+    def _write(self, obj, split_sep=False):
         data = json.dumps(obj).encode() + b"\n\n"
+        if split_sep:
+            # a read of the plugin that ends exactly between the two newlines of the separator: everything but the last byte,
+            # a pause long enough for the plugin to read it, then the last byte
+            self.proc.stdin.write(data[:-1]); self.proc.stdin.flush(); time.sleep(0.08)
+            self.proc.stdin.write(data[-1:]); self.proc.stdin.flush()
+            return
         for i in range(0, len(data), self.chunk):
             self.proc.stdin.write(data[i:i + self.chunk]); self.proc.stdin.flush()
 
@@ -168,9 +174,9 @@ class FakeNode:
             time.sleep(0.02)
         return "exited" if self.proc.poll() is not None else "timeout"
 
-    def hook(self, rid, params):
+    def hook(self, rid, params, split_sep=False):
         try:
-            self._write({"jsonrpc": "2.0", "id": rid, "method": "htlc_accepted", "params": params})
+            self._write({"jsonrpc": "2.0", "id": rid, "method": "htlc_accepted", "params": params}, split_sep=split_sep)
         except (BrokenPipeError, OSError):
             pass
 
